@@ -32,11 +32,12 @@ def plan(tier: str, seed: int):
     """[(label, constants, simulate-or-None, depth)]"""
     deep = dict(NSubs=3, MaxSteps=6 if tier == "quick" else 8, TEnd=5, MaxGap=2, Wrs={"none", "ref_count", "auto"},
                 Ns={0, 1, 2, 3}, Mps={"none", "id", "dup", "take1"}, SrcIds=set(range(1, 11)), ReUnsub=True, StaleDisc=True,
-                Modes={"all", "once"}, MinLen=4)
+                Modes={"all", "once", "spawn"}, MinLen=4)
     d = deep["MaxSteps"] + 2
     if tier == "quick":
         return [("raw connectables, 3 steps", _c(SrcIds={1}), None, None),
-                ("ref_count/auto_connect, 3 steps", _c(Wrs={"ref_count", "auto"}, Ns={0, 1, 2}, SrcIds={3}), None, None),
+                ("ref_count/auto_connect (+ re-entrant subscribers), 3 steps",
+                 _c(Wrs={"ref_count", "auto"}, Ns={0, 1, 2}, SrcIds={3}, Modes={"all", "spawn"}), None, None),
                 ("mapper forms, 3 steps", _c(Mps={"id", "dup", "take1"}, SrcIds={1}), None, None),
                 ("simulate all variants", _c(Bs={0, 1, 2, 99}, Ws={1, 2, 99}, **deep), "num=500", d)]
     nsim = 4000
@@ -46,6 +47,8 @@ def plan(tier: str, seed: int):
              None, None),
             ("self-unsubscribing subscribers, 3 steps", _c(Wrs={"none", "ref_count", "auto"}, Ns={1, 2}, SrcIds={4, 1},
                                                           Modes={"all", "once"}), None, None),
+            ("re-entrant subscribers, 3 steps", _c(Wrs={"none", "ref_count", "auto"}, Ns={1, 2}, SrcIds={1}, NSubs=3,
+                                                    Modes={"all", "spawn"}), None, None),
             ("mapper forms, 4 steps", _c(Mps={"id", "dup", "take1"}, MaxSteps=4, NSubs=3, SrcIds={1, 3, 5}), None, None),
             ("replay windows, 4 steps", _c(SKs={"replay"}, Bs={0, 2, 99}, Ws={1, 2}, Wrs={"none", "ref_count"}, MaxSteps=4,
                                            SrcIds={1, 7}, Ties={"src"}), None, None),
@@ -94,7 +97,8 @@ def run(tier: str) -> int:
     ck.rule = ("histories of subscribe/unsubscribe/connect/disconnect at model-chosen instants (commands may share an instant "
                "with each other and with source events, both orders) over cold and hot logged sources, for publish / "
                "publish_value / replay(buffer, window) connectables, ref_count / share, auto_connect(0..3), subscribers that "
-               "unsubscribe themselves from inside their first delivery (take(1)), and the mapper "
+               "unsubscribe themselves from inside their first delivery (take(1)), subscribers that subscribe another "
+               "observer from inside their first delivery (re-entrant subscribe), and the mapper "
                "forms of publish / publish_value / replay / multicast(subject_factory); enumerated lazily by TLC on "
                "Connectable.tla, each performed on every construction the library offers for the variant; non-trivial = "
                "at least one source subscription and one non-empty subscriber stream")
